@@ -388,6 +388,9 @@ func (x *Exec) localByName(e *Env, name string) (val, bool) {
 		if fv.Name() == name {
 			// captured variable: pointer to its cell
 			et := fv.Type().Underlying().(*types.Pointer).Elem()
+			if _, isStruct := et.Underlying().(*types.Struct); isStruct {
+				return val{x.value(fv), fv.Type(), sInt}, true // captured struct variable: denotes its address
+			}
 			lv := x.lvalueForRead(fv)
 			if lv == nil {
 				return val{}, false
